@@ -1,7 +1,7 @@
 /-
   C02 helper lemmas (6): a multi-member write made as ONE storage call is atomic with respect to the deadline.
 -/
-import FerrousSpec.Proofs.ExpiryRefine
+import FerrousSpec.Proofs.ExpirySweep
 set_option linter.unusedSimpArgs false
 set_option linter.unusedVariables false
 namespace Ferrous.Exp
@@ -50,5 +50,54 @@ theorem perMemberRun_live (c : Cfg) (fn : String) (k : Key) (times : List Nat) (
     congr 1
     simp only [Stored.mk.injEq, true_and, and_true]
     omega
+
+/-! ### Blocks (scripts, transactions) under a frozen clock -/
+
+/-- every storage call of the block has a lazy test -/
+def blockLazy (c : Cfg) : List (Op × Nat) → Bool
+  | [] => true
+  | (o, _) :: r => lazyOp c o && blockLazy c r
+
+/-- FROZEN CLOCK = ONE INSTANT: a block whose calls all read the clock frozen at its start returns, call by call, what the
+    prescribed store returns when the whole block happens at that instant, and leaves the same visible entries. -/
+theorem blockRun_frozen_refines (c : Cfg) (t0 : Nat) (ops : List (Op × Nat)) (s : Shard) (d : Db)
+    (hl : blockLazy c ops = true) (hn : NodupKeys s.data) (hv : Spec.purge t0 s.data = Spec.purge t0 d) :
+    (blockRun c true t0 ops s).2 = (Spec.blockRun t0 ops d).2 ∧
+    Spec.purge t0 (blockRun c true t0 ops s).1.data = Spec.purge t0 (Spec.blockRun t0 ops d).1 := by
+  induction ops generalizing s d with
+  | nil => exact ⟨rfl, hv⟩
+  | cons p r ih =>
+    obtain ⟨o, t⟩ := p
+    simp only [blockLazy, Bool.and_eq_true] at hl
+    have href := step_refines c o t0 s hn (Or.inl hl.1)
+    have hcg := Spec.step_congr o t0 _ _ hv
+    have hv' : Spec.purge t0 (step c o t0 s).1.data = Spec.purge t0 (Spec.step o t0 d).1 := by
+      rw [← hcg, ← href.1, purge_idem]
+    have := ih (step c o t0 s).1 (Spec.step o t0 d).1 hl.2 (step_nodup c o t0 s hn) hv'
+    simp only [blockRun, Spec.blockRun, if_true]
+    exact ⟨by rw [href.2, hcg, this.1], this.2⟩
+
+/-- a call that is not about `k` leaves what is VISIBLE under `k` (at the call's own clock reading) unchanged -/
+theorem step_frame_view (c : Cfg) (o : Op) (now : Nat) (s : Shard) (k : Key) (hn : NodupKeys s.data) (h : touches o k = false) :
+    lookup (Spec.purge now (step c o now s).1.data) k = lookup (Spec.purge now s.data) k := by
+  rw [lookup_purge now _ k (step_nodup c o now s hn), lookup_purge now _ k hn, step_frame c o now s k h]
+
+/-- the calls of a block that are not about `k` -/
+def blockAvoids (k : Key) : List (Op × Nat) → Bool
+  | [] => true
+  | (o, _) :: r => !touches o k && blockAvoids k r
+
+theorem blockRun_frozen_frame (c : Cfg) (t0 : Nat) (ops : List (Op × Nat)) (s : Shard) (k : Key) (hn : NodupKeys s.data)
+    (ha : blockAvoids k ops = true) :
+    lookup (Spec.purge t0 (blockRun c true t0 ops s).1.data) k = lookup (Spec.purge t0 s.data) k ∧
+    NodupKeys (blockRun c true t0 ops s).1.data := by
+  induction ops generalizing s with
+  | nil => exact ⟨rfl, hn⟩
+  | cons p r ih =>
+    obtain ⟨o, t⟩ := p
+    simp only [blockAvoids, Bool.and_eq_true, Bool.not_eq_true'] at ha
+    have := ih (step c o t0 s).1 (step_nodup c o t0 s hn) ha.2
+    simp only [blockRun, if_true]
+    exact ⟨by rw [this.1, step_frame_view c o t0 s k hn ha.1], this.2⟩
 
 end Ferrous.Exp
